@@ -272,6 +272,8 @@ Inductive action :=
 | ATagAdd
 | ATagDel (hit : bool)            (* DelTag; hit: it is the tag of the tagging job in flight *)
 | ATagUpd (hit : bool)            (* UpdateTag(query) with a new definition *)
+| AMarkNew                        (* AddTag of a mark tag: the tag table gets a new entry, no job is started *)
+| AMarkEdit                       (* UpdateTag(MarkAddStream / MarkDelStream): a FRESH copy of the tag replaces the old one *)
 | AConvSet                        (* UpdateTag(SetConverter): attach / detach a converter *)
 | AConvRemove                     (* removeConverter (the executable disappeared) *)
 | AConvAdd                        (* addConverter *)
@@ -455,6 +457,15 @@ Definition step (st : state) (a : action) : state :=
         (mkState (indexes st) (used st) (disk st) (queue st) (known st) (processed st) (next_cap st)
                  (next_id st) (next_uid st) (nunm st) (cwork st) (unc st) (cjob st)
                  (ijob st) (mjob st) (invalidate_tj hit (tjob st)) (views st) (tagver st + 1) (vtags st)))
+  | AMarkNew =>
+      mkState (indexes st) (used st) (disk st) (queue st) (known st) (processed st) (next_cap st)
+              (next_id st) (next_uid st) (nunm st) (cwork st) (unc st) (cjob st)
+              (ijob st) (mjob st) (tjob st) (views st) (tagver st + 1) (vtags st)
+  | AMarkEdit =>
+      start_converter (start_tagging
+        (mkState (indexes st) (used st) (disk st) (queue st) (known st) (processed st) (next_cap st)
+                 (next_id st) (next_uid st) (nunm st) (cwork st) (unc st) (cjob st)
+                 (ijob st) (mjob st) (tjob st) (views st) (tagver st + 1) (vtags st)))
   | AConvSet => start_converter (start_tagging st)
   | AMergeFail =>
       match mjob st with
@@ -596,7 +607,7 @@ Definition enabled (st : state) (a : action) : bool :=
   | ARead v | ARelease v | APrefetch v => match view_of v (views st) with None => false | Some _ => true end
   | ATagAdd => true
   | ATagDel hit | ATagUpd hit => if hit then match tjob st with Some _ => true | None => false end else true
-  | AConvSet | AConvRemove | AConvAdd | AEnvUnc _ | AEnvConvWork _ | ABoot => true
+  | AMarkNew | AMarkEdit | AConvSet | AConvRemove | AConvAdd | AEnvUnc _ | AEnvConvWork _ | ABoot => true
   | AMergeFail => match mjob st with Some j => match mj_phase j with AtStart => true | _ => false end | None => false end
   | AStart KImport => match ijob st with Some j => match ij_phase j with AtStart => true | _ => false end | None => false end
   | AStart KMerge => match mjob st with Some j => match mj_phase j with AtStart => true | _ => false end | None => false end
